@@ -3,3 +3,21 @@ open Biogo.Properties.C17
 #print axioms builtin_laws
 #print axioms builtin_index_laws
 #print axioms builtins_accepted
+#print axioms valid_iff_mem
+#print axioms valid_iff_mem_cased
+#print axioms valid_iff_mem_uncased
+#print axioms indexOf_letter
+#print axioms letter_indexOf
+#print axioms indexOf_neg_iff_invalid
+#print axioms allValid_first_invalid
+#print axioms complement_involutive
+#print axioms table_agrees_method
+#print axioms newComplementor_pairing
+#print axioms rejects_nonASCII
+#print axioms rejects_nonASCII_pairing
+#print axioms rejects_length_mismatch
+#print axioms accepts_iff_involution
+#print axioms rejects_non_bijection
+#print axioms second_bijection_test_redundant
+#print axioms newComplementor_accepts_every_pairing
+#print axioms complement_valid_not_general
